@@ -92,7 +92,7 @@ func H_C14_CmpDerive() {
 	children := [2]map[party.ID]*Config{{}, {}}
 	var wantKey [2]curve.Point
 	for k := 0; k < 2; k++ {
-		idx := vsym.Uint32("index")
+		idx := vsym.Uint32([]string{"index0", "index1", "index2", "index3"}[k])
 		vsym.Assume(idx < 1<<31)
 		var wantChain []byte
 		wantKey[k], wantChain = expect(idx)
